@@ -94,8 +94,13 @@ class AsyncContext(object):
         if is_asyncio_mode():
             self.pause()
         else:
-            leave_context(self, self._active_task)
-            self.pause()
+            active_task = self._active_task
+            leave_context(self, active_task)
+            # If the block is being torn down while its task is suspended (e.g. the task
+            # failed in _pause_contexts and its generator is closed), the scheduler has
+            # already paused this context; pausing it again would break resume/pause pairing.
+            if active_task is None or active_task._contexts_active:
+                self.pause()
             del self._active_task
 
     def resume(self):
